@@ -213,7 +213,7 @@ def val_eq(I, x, y):
     if isinstance(x, SetObj) and isinstance(y, SetObj):
         raise Unsupported('HashSet equality')
     if isinstance(x, Opaque) and isinstance(y, Opaque) and x.kind == 'instant' and y.kind == 'instant':
-        return b_eq(x.secs, y.secs)
+        return b_and([b_eq(x.secs, y.secs), b_eq(getattr(x, 'frac', False), getattr(y, 'frac', False))])
     if isinstance(x, (bool, int)) or is_sym(x):
         return b_eq(x, y)
     raise Unsupported(f'val_eq {type(x).__name__} {type(y).__name__}')
@@ -852,6 +852,55 @@ def _(I, a):
 def _(I, a):
     c = deref(a[0])
     return z3.ULT(c, 128) if is_sym(c) else c < 128
+
+
+def _byte_pred(name, sym, conc):
+    def f(I, a):
+        c = deref(a[0])
+        return sym(c) if is_sym(c) else conc(c)
+    for pre in ('core::num::<impl u8>::', 'core::char::methods::<impl char>::'):
+        EXACT[pre + name] = f
+
+
+_rng = lambda c, lo, hi: z3.And(z3.UGE(c, lo), z3.ULE(c, hi))
+_byte_pred('is_ascii_digit', lambda c: _rng(c, 48, 57), lambda c: 48 <= c <= 57)
+_byte_pred('is_ascii_uppercase', lambda c: _rng(c, 65, 90), lambda c: 65 <= c <= 90)
+_byte_pred('is_ascii_lowercase', lambda c: _rng(c, 97, 122), lambda c: 97 <= c <= 122)
+_byte_pred('is_ascii_alphabetic', lambda c: z3.Or(_rng(c, 65, 90), _rng(c, 97, 122)), lambda c: 65 <= c <= 90 or 97 <= c <= 122)
+_byte_pred('is_ascii_alphanumeric', lambda c: z3.Or(_rng(c, 48, 57), _rng(c, 65, 90), _rng(c, 97, 122)),
+           lambda c: 48 <= c <= 57 or 65 <= c <= 90 or 97 <= c <= 122)
+_byte_pred('is_ascii_whitespace', lambda c: z3.Or(*[c == v for v in (9, 10, 12, 13, 32)]), lambda c: c in (9, 10, 12, 13, 32))
+_byte_pred('is_ascii_punctuation', lambda c: z3.Or(_rng(c, 33, 47), _rng(c, 58, 64), _rng(c, 91, 96), _rng(c, 123, 126)),
+           lambda c: 33 <= c <= 47 or 58 <= c <= 64 or 91 <= c <= 96 or 123 <= c <= 126)
+_byte_pred('is_ascii', lambda c: z3.ULT(c, 128), lambda c: c < 128)
+
+
+@model('core::char::methods::<impl char>::to_digit')
+def _(I, a):
+    c, radix = a[0], a[1]
+    if radix != 10:
+        raise Unsupported('to_digit radix')
+    if is_sym(c):
+        if I.branch(_rng(c, 48, 57)):
+            return some(c - 48)
+        return NONE()
+    return some(c - 48) if 48 <= c <= 57 else NONE()
+
+
+@model('core::num::<impl u8>::to_ascii_lowercase', 'core::char::methods::<impl char>::to_ascii_lowercase')
+def _(I, a):
+    c = deref(a[0])
+    if is_sym(c):
+        return z3.If(_rng(c, 65, 90), c + 32, c)
+    return c + 32 if 65 <= c <= 90 else c
+
+
+@model('core::num::<impl u8>::to_ascii_uppercase', 'core::char::methods::<impl char>::to_ascii_uppercase')
+def _(I, a):
+    c = deref(a[0])
+    if is_sym(c):
+        return z3.If(_rng(c, 97, 122), c - 32, c)
+    return c - 32 if 97 <= c <= 122 else c
 
 
 # ---------------- iterators -----------------
@@ -2223,12 +2272,42 @@ def _(I, a):
 
 # ---------------- chrono stub (DESIGN.md §4.4) -----------------
 def instant_rel(I, x, y, meth):
+    """order of two instants (secs, frac): frac marks 'strictly between secs and secs+1' (leap second)"""
     a, b = x.secs, y.secs
-    if not is_sym(a) and not is_sym(b):
-        return {'lt': a < b, 'le': a <= b, 'gt': a > b, 'ge': a >= b}[meth]
+    fa, fb = getattr(x, 'frac', False), getattr(y, 'frac', False)
+    if not any(is_sym(v) for v in (a, b, fa, fb)):
+        ka, kb = (a, bool(fa)), (b, bool(fb))
+        return {'lt': ka < kb, 'le': ka <= kb, 'gt': ka > kb, 'ge': ka >= kb}[meth]
     za = a if is_sym(a) else z3.BitVecVal(a, 64)
     zb = b if is_sym(b) else z3.BitVecVal(b, 64)
-    return {'lt': za < zb, 'le': za <= zb, 'gt': za > zb, 'ge': za >= zb}[meth]
+    bf = lambda v: v if is_sym(v) else z3.BoolVal(bool(v))
+    if fa is False and fb is False:
+        return {'lt': za < zb, 'le': za <= zb, 'gt': za > zb, 'ge': za >= zb}[meth]
+    lt = z3.Or(za < zb, z3.And(za == zb, z3.Not(bf(fa)), bf(fb)))
+    eq = z3.And(za == zb, bf(fa) == bf(fb))
+    return {'lt': lt, 'le': z3.Or(lt, eq), 'gt': z3.Not(z3.Or(lt, eq)), 'ge': z3.Not(lt)}[meth]
+
+
+@model('<std::option::Option as std::ops::Try>::branch')
+def _(I, a):
+    o = a[0]
+    return Enum('ControlFlow', 'Continue', [o.fields[0]]) if o.variant == 'Some' else Enum('ControlFlow', 'Break', [NONE()])
+
+
+@model('<std::result::Result as std::ops::Try>::branch')
+def _(I, a):
+    r = a[0]
+    return Enum('ControlFlow', 'Continue', [r.fields[0]]) if r.variant == 'Ok' else Enum('ControlFlow', 'Break', [err(r.fields[0])])
+
+
+@model('<std::option::Option as std::ops::FromResidual>::from_residual')
+def _(I, a):
+    return NONE()
+
+
+@model('<std::result::Result as std::ops::FromResidual>::from_residual')
+def _(I, a):
+    return err(a[0].fields[0])
 
 
 import chrono_stub  # noqa: E402  (registers its models)
